@@ -155,6 +155,19 @@ Theorem C19_respond_fifo : forall mof qof pq pay reconn https redirectable cmeth
 Proof. exact respond_fifo. Qed.
 Print Assumptions C19_respond_fifo.
 
+(* The server closes the idle keep-alive connection between two requests: the client notices it in an
+   idle pass (Eof with nothing in flight), reconnects when its timer fires, and a request queued
+   afterwards goes out on the new connection. *)
+Example C19_example_idle_close :
+  let evs := [Enq 1; Pass false None;
+              Pass false (Some {| rp_id := 0; rp_status := 200; rp_loc := None; rp_close := true |});
+              Pass false None; Eof; Pass false None; Pass true None; Pass false None;
+              Enq 2; Pass false None;
+              Pass false (Some {| rp_id := 1; rp_status := 200; rp_loc := None; rp_close := false |})] in
+  let s := run (fun _ => 0) (fun _ => None) (fun _ => []) (fun _ => nopay) (init_m true false true 0) evs in
+  wire_reqs (wire s) = [1; 2] /\ map w_conn (wire s) = [0; 1] /\ length (responses s) = 2%nat /\ waited s = false.
+Proof. vm_compute. repeat split. Qed.
+
 (* Liveness is NOT part of what is proved and is false under a closing server
    (open finding C19-close-strands-queue): after a reply whose server closes the
    connection, the next request is popped but never reaches the wire and never
